@@ -59,6 +59,7 @@ type VRec struct {
 	Trace     []string `json:"trace"`
 	Count     int      `json:"count"`
 	RepoHead  string   `json:"repo_head,omitempty"`
+	Engine    string   `json:"engine,omitempty"`
 }
 
 // Known is one entry of known_findings.json.
